@@ -187,10 +187,18 @@ def run(ck, replay=None):
     ck.assume("observations that are not refuting events are only counted: None from get_next_sqe_slot with free slots, "
               "entries consumed before flush, get_next_cqe releasing the slot before the caller reads through the reference")
     ck.assume("debug build has overflow checks on, release off; a panic inside a wrapper call is a violation")
+    ck.assume("SQPOLL wake-up protocol: rusl has no submit helper, IoUring::needs_wakeup is the library's whole part; the simulated "
+              "application calls it after every flush and 'enters with IORING_ENTER_SQ_WAKEUP' exactly when it says so. The simulated "
+              "poll thread sleeps only on an empty ring (sets IORING_SQ_NEED_WAKEUP, consumes nothing until woken) and moves the "
+              "IORING_SQ_CQ_OVERFLOW / IORING_SQ_TASKRUN bits of the same word at any time; needs_wakeup() must equal 'thread sleeps'. "
+              "Real kernel: SQPOLL ring, sq_thread_idle 1 ms, 20 ms pause; a completion missing for 1 s counts only if the wrapper "
+              "asked for no wake-up and the harness's own SQ_WAKEUP enter then produces it")
     return ("scripted interleavings of application calls {get_next_sqe_slot+fill, flush_submission_queue, get_next_cqe+copy} and "
             "simulated-kernel steps {consume k, post k} on a ring built over harness memory; random runs cycle through every "
             "(ring size 1/2/4/8, cq size n/2n, SQ head start, CQ head start) with random prefill, flags (SQPOLL/SQE128/CQE32) and "
-            "one of six step-weight personalities; short runs are enumerated exhaustively; each run ends with a drain; "
+            "one of six step-weight personalities; the kernel side also lets the SQPOLL thread go idle (NEED_WAKEUP) and sets the "
+            "other sq flag bits, the application asks needs_wakeup() after every flush and wakes the thread accordingly; "
+            "short runs are enumerated exhaustively; each run ends with a drain; "
             "plus real-kernel runs: rings set up by setup_io_uring with requested sizes 1..9,12,24,33,100, batches of stamped close(bad fd) "
             "operations over several laps, completions compared with submissions per batch; "
             "distinct = (profile, size, cq size, SQ start class, CQ start class) cells, (size, flags) cells and ring events reached "
